@@ -119,7 +119,7 @@ func Verif_C08_notification_verbatim() {
 	cfg := symConfig()
 	conn := newSymConn("c", nil, 0)
 	p := mkPeer(cfg, newMonPlugin())
-	f := newFSM(p, conn)
+	f := newFSM(p, verifDirOf(conn), conn)
 	data := verifBuf("data", 0, 4075)
 	n := &Notification{Code: verifU8("code"), Subcode: verifU8("subcode"), Data: data}
 	err := f.sendNotification(n)
